@@ -233,6 +233,7 @@ func (m *CPU) flush(pc int32) {
 	m.controlBus.Clean()
 	m.executeBus.Clean()
 	m.writeBus.Clean()
+	m.memoryManagementUnit.flushPendings()
 	m.ctx.Flush()
 }
 
